@@ -916,6 +916,8 @@ val oc_set_new_ident : node -> ocstate -> ocstate
 
 val oc_set_found : ocstate -> ocstate
 
+val oc_callee_member : node -> ((node * node) * bool) option
+
 val oc_call_from_base :
   config -> node -> bool -> ocstate -> node option * ocstate
 
@@ -1070,6 +1072,12 @@ val static_path : node -> bool
 val call_apply_nonstatic : char list list -> node -> bool
 
 val k_call_apply_nonstatic : char list list -> node -> bool
+
+val peel_paren_nodes : node -> node
+
+val optional_call_through_chain : node -> bool
+
+val k_optional_call_through_chain : node -> bool
 
 val known_classes : char list list -> node -> char list list
 
